@@ -132,6 +132,25 @@ def r2_r3(ctx, L, hs):
                 pt_ = pt_["p"]
             via_map = (pt_.get("k") == "tuple" and len(pt_["ps"]) == 3 and len(pb_) == 1 and pat_binds(pt_["ps"][2]) == pb_ and e4.local_hid(bd_) == pb_[0][1]
                        and not [x for x in walk(fn["body"]) if x.get("k") in ("assign", "assignop") and e4.local_hid(x["l"]) == th_outer])
+    if th_init.get("k") == "match" and e4.local_hid(th_init["scrut"]) == L.params["validation"] and len(th_init["arms"]) == 2:
+        # `match validation { Some((_, _, limit)) => Some(limit), None => None }` (also what `validation.map(..)` desugars to)
+        okm_ = 0
+        for a_ in th_init["arms"]:
+            vp_ = e4.arm_variant(a_)[0]
+            bd_ = strip(a_["body"])
+            while bd_ is not None and bd_.get("k") == "blk" and not bd_["b"]["stmts"] and bd_["b"]["tail"] is not None:
+                bd_ = strip(bd_["b"]["tail"])
+            if vp_.endswith("Some"):
+                pt_ = a_["pat"]["ps"][0] if a_["pat"].get("ps") else None
+                while pt_ is not None and pt_.get("k") in ("ref", "deref"):
+                    pt_ = pt_["p"]
+                pb_ = pat_binds(a_["pat"])
+                if (pt_ is not None and pt_.get("k") == "tuple" and len(pt_["ps"]) == 3 and len(pb_) == 1 and pat_binds(pt_["ps"][2]) == pb_ and bd_.get("k") == "call"
+                        and bd_["callee"].endswith("::Some") and e4.local_hid(bd_["args"][0]) == pb_[0][1] and a_.get("guard") is None):
+                    okm_ += 1
+            elif (vp_.endswith("None") or a_["pat"].get("k") == "wild") and bd_ is not None and bd_.get("k") == "path" and bd_["def"].endswith("::None") and a_.get("guard") is None:
+                okm_ += 1
+        via_map = okm_ == 2 and not [x for x in walk(fn["body"]) if x.get("k") in ("assign", "assignop") and e4.local_hid(x["l"]) == th_outer]
     ctx.check("R13.2", "threshold-starts-none", via_map or pretty(th_init).endswith("None"), "threshold-initial-value", c.loc(fn), "threshold = None (or validation.map(limit))")
     asg = [x for x in walk(fn["body"]) if x.get("k") == "assign" and e4.local_hid(x["l"]) == th_outer]
     ok = len(asg) == 1
